@@ -29,6 +29,9 @@ structure EulerCfg where
   /-- `integrate_to_steady_state` RAISES (an exception of the right-hand side escaping the integrator) iff
       `sum(y0) + 3*sum(rhs(0, y0))` is one of these keys -/
   raiseKeys : List Rat := []
+  /-- the integrator's CONSTRUCTOR raises `ZeroDivisionError` (stands for a rate law dividing by a parameter that is 0:
+      `Simulator(model, …)` raises inside the scan worker's `try`) iff the key is one of these -/
+  zeroDivKeys : List Rat := []
 deriving Inhabited
 
 structure Integ where
@@ -123,6 +126,28 @@ def raisesAt (cfg : EulerCfg) (c : Content) : Except Err Bool := do
   let d0 ← callRhs c 0 y0
   pure (cfg.raiseKeys.contains (sumRat y0 + 3 * sumRat d0))
 
+/-- does the integrator's constructor raise `ZeroDivisionError` for this model? -/
+def zeroDivAt (cfg : EulerCfg) (c : Content) : Except Err Bool := do
+  let cache ← createCache c
+  let y0 := cache.init.map (·.2)
+  let d0 ← callRhs c 0 y0
+  pure (cfg.zeroDivKeys.contains (sumRat y0 + 3 * sumRat d0))
+
+/-- every scan worker: `try: res = Simulator(model, …).simulate_…().get_result()  except ZeroDivisionError: res =
+    Result(Exception())` — a `ZeroDivisionError` raised while the simulator is built is a FAILED run (the placeholder
+    follows), the model is untouched; any other exception escapes -/
+def guardZeroDiv (cfg : EulerCfg) (run : Content → Except Err (Content × Option (List Seg))) (c : Content) :
+    Except Err (Content × Option (List Seg)) :=
+  match simInit cfg c with
+  | .error e => .error e
+  | .ok _ =>
+    match zeroDivAt cfg c with
+    | .error e => .error e
+    | .ok true =>
+      -- regenerated from scan.py: do the four workers still catch `ZeroDivisionError`?
+      if Generated.C09.workersCatchZeroDivision then .ok (c, none) else .error (.other "ZeroDivisionError")
+    | .ok false => run c
+
 /-- `Simulator(model).simulate_to_steady_state()`: the constructor first, then the integrator, which may raise -/
 def ssRun (cfg : EulerCfg) (c : Content) : Except Err (Content × Option (List Seg)) :=
   match simInit cfg c with
@@ -133,7 +158,7 @@ def ssRun (cfg : EulerCfg) (c : Content) : Except Err (Content × Option (List S
     | .ok true => .error (.valueError "integrator raised")
     | .ok false => ssRunCore cfg c
 
-def ssWorker (cfg : EulerCfg) : Worker := { run := ssRun cfg, dfltIndex := [0] }
+def ssWorker (cfg : EulerCfg) : Worker := { run := guardZeroDiv cfg (ssRun cfg), dfltIndex := [0] }
 
 /-! ### time course -/
 
@@ -154,7 +179,8 @@ def tcRun (cfg : EulerCfg) (tps : List Rat) (c : Content) : Except Err (Content 
         let p ← snapshot c
         pure (c, some [{ rows, pars := p }])
 
-def tcWorker (cfg : EulerCfg) (tps : List Rat) : Worker := { run := tcRun cfg tps, dfltIndex := tcIndex tps }
+def tcWorker (cfg : EulerCfg) (tps : List Rat) : Worker :=
+  { run := guardZeroDiv cfg (tcRun cfg tps), dfltIndex := tcIndex tps }
 
 /-! ### protocol -/
 
@@ -244,7 +270,7 @@ def protoIndex (steps : Nat) : Rat → Bool → Protocol → List Rat
 /-- the placeholder of a failed row carries the time points of a successful run (after
     "fix: NaN placeholders of failed scan rows have the time points of a successful run") -/
 def protoWorker (cfg : EulerCfg) (proto : Protocol) (steps : Nat) : Worker :=
-  { run := protoRun cfg proto steps, dfltIndex := protoIndex steps 0 true proto }
+  { run := guardZeroDiv cfg (protoRun cfg proto steps), dfltIndex := protoIndex steps 0 true proto }
 
 /-! ### protocol + explicit time points -/
 
@@ -273,6 +299,6 @@ def ptcIndex (proto : Protocol) (tps : List Rat) : List Rat :=
   0 :: (joinOuter (proto.map (·.1)) tps).filter fun t => decide (0 < t) && decide (t ≤ tEnd)
 
 def ptcWorker (cfg : EulerCfg) (proto : Protocol) (tps : List Rat) : Worker :=
-  { run := ptcRun cfg proto tps, dfltIndex := ptcIndex proto tps }
+  { run := guardZeroDiv cfg (ptcRun cfg proto tps), dfltIndex := ptcIndex proto tps }
 
 end Mxl.C09
